@@ -348,13 +348,29 @@ fn run_collector(w: &mut Tape, env: &EnvRef) -> RunResult {
     let mode = [ReadPreamble::Auto, ReadPreamble::Always, ReadPreamble::Never][w.below(3) as usize];
     let src = budget_src(file, env);
     let flag = src.over_budget.clone();
-    let mut col = DicomCollectorOptions::new().read_preamble(mode).from_reader(BufReader::new(src));
+    let mut opts = DicomCollectorOptions::new().read_preamble(mode);
+    // a transfer syntax given up front (right, wrong or unknown), and the odd-length strategies
+    match w.below(6) {
+        1 => opts = opts.expected_ts("1.2.840.10008.1.2"),
+        2 => opts = opts.expected_ts("1.2.840.10008.1.2.1"),
+        3 => opts = opts.expected_ts("1.2.840.10008.1.2.2"),
+        4 => opts = opts.expected_ts(["1.2.840.10008.1.2.1.99", "1.2.3.4.999", ""][w.below(3) as usize]),
+        _ => {}
+    }
+    match w.below(4) {
+        1 => opts = opts.odd_length_strategy(dicom_parser::dataset::read::OddLengthStrategy::NextEven),
+        2 => opts = opts.odd_length_strategy(dicom_parser::dataset::read::OddLengthStrategy::Fail),
+        _ => {}
+    }
+    let mut col = opts.from_reader(BufReader::new(src));
     let ncalls = 1 + w.below(8);
     let mut obj = InMemDicomObject::new_empty();
     for _ in 0..ncalls {
-        let ok = match w.below(7) {
+        let ok = match w.below(9) {
             0 => col.read_preamble().is_ok(),
             1 => col.read_file_meta().is_ok(),
+            7 => col.take_file_meta().is_some(),
+            8 => col.read_dataset_up_to(Tag(0, 0), &mut obj).is_ok(),
             2 => col.read_dataset_up_to(Tag(0x0008 + 2 * w.below(0x40) as u16, w.below(0x2000) as u16), &mut obj).is_ok(),
             3 => col.read_dataset_up_to_pixeldata(&mut obj).is_ok(),
             4 => col.read_dataset_to_end(&mut obj).is_ok(),
